@@ -25,14 +25,14 @@ from vlib import Result, enc_list, f2b, b2f, close
 
 PROP = 'C09'
 META = {
-    'level_text': 'Lean 4 theorems, for every operation/query sequence of any length (induction), about executable models of (1) the HashTable of the diffusion models: a hit only ever returns a value stored under the same key at the same sensitivity with no clear in between, after enableCaching(False) nothing is returned or stored, the retrieve-else-compute-and-add idiom returns f at an argument with the same key, the int64 key is faithful inside its range (and the shipped int32 key, the shipped is-None switch and the shipped non-clearing setHashSensitivity are proved wrong on concrete witnesses); (2) the broadcasting helpers: equal lengths on success, singleton repeated, unequal lengths rejected, every array query is map-single over the broadcast pairs (also with the cache state threaded through), the caller\'s gExtra is not modified; (3) the cache state machine of the thermodynamics classes with pycalphad as a parameter: every solver call that receives cached composition sets receives them with the state variables of its own conditions, sampled points are only used under their own temperature tag and changing the density empties them, removeCache leaves the touched caches empty, every cache is keyed by the phase it belongs to — a query with phase=/precPhase= p changes no entry of another phase (Kept) and its answer and own entries are determined by the entries of p alone, whatever the other phases hold (Agree/Sim, query_ignores_other_phases, diffusivity_unaffected_by_other_phase) — and IF the solver is start-independent (hypothesis) every query result after any history equals the result on a new object and is an explicit function of the arguments. All three models are tied to /repo on every run (exact differential correspondence for (1),(2); trace refinement of instrumented real runs — all cache slots of all phases compared after every query — on the shipped Al-Zr, Ni-Al-Cr, Al-Mg-Si (five precipitate phases, precPhase= varied) and Fe-Cr-Ni (FCC_A1 + BCC_A2 with mobilities, phase= varied) objects for (3)).',
-    'level_note': 'MONITORED ONLY (oracle, no proof): numerical purity of the pycalphad-backed values, i.e. that the real minimiser is start-independent to the solver tolerance — query sequences (orders, repetitions, temperature jumps, removeCache on/off, alone vs in arrays, cleared vs brand-new vs warmed objects) on the shipped Al-Zr, Ni-Al-Cr, Al-Mg-Si and Fe-Cr-Ni objects, with non-default phase=/precPhase= arguments interleaved, compared at rtol 1e-6; the vectorised GE axis of BinaryThermodynamics.getInterfacialComposition (one pycalphad workspace). Not modelled: computeSearchDir=True, local_phase_sampling_conditions (held at None; the sample cache is tagged by T only), impingementFactor, _interfacialCompositionFromCurvature, phase_records.models switching in _setupSubModels. Trusted: Python hash of an int tuple is injective on the keys met (hash(-1)==hash(-2) concerns negative components only); NumPy float->int cast semantics as observed on this platform (out of range -> minimum). Findings kept in the code (known_findings.txt, each emitted under its own key only for its own class, identified from the instrumented trace): curvatureFactor / getGrowthAndInterfacialComposition answer with the previous output when the equilibrium at their arguments yields no two-phase result and a cached equilibrium exists (Lean: curvature_res gives the exact characterisation); the cached list can lose the precipitate in place and then poisons later queries without searchDir; and the cached-start local equilibrium of _getCompositionSetsEq (curvature factors, approximate/curvature driving force) can find other phases than the global equilibrium of a new object near the phase boundary — i.e. the StartIndependent hypothesis of the purity theorem is FALSE for the real pycalphad local solver there; the default tangent driving force, the diffusivities and the interfacial compositions showed no history dependence at rtol 1e-6.',
+    'level_text': 'Lean 4 theorems, for every operation/query sequence of any length (induction), about executable models of (1) the HashTable of the diffusion models: a hit only ever returns a value stored under the same key at the same sensitivity with no clear in between, after enableCaching(False) nothing is returned or stored, the retrieve-else-compute-and-add idiom returns f at an argument with the same key, the int64 key is faithful inside its range (and the shipped int32 key, the shipped is-None switch and the shipped non-clearing setHashSensitivity are proved wrong on concrete witnesses); (2) the broadcasting helpers: equal lengths on success, singleton repeated, unequal lengths rejected, every array query is map-single over the broadcast pairs (also with the cache state threaded through), the caller\'s gExtra is not modified, the isothermal shortcut of the binary interfacial composition is taken iff all temperatures are equal and then evaluates exactly the broadcast (T, GE) points (binaryIC_isothermal/_nonisothermal/_points); (3) the cache state machine of the thermodynamics classes with pycalphad as a parameter: every solver call that receives cached composition sets receives them with the state variables of its own conditions, sampled points are only used under their own temperature tag and changing the density empties them, removeCache leaves the touched caches empty, each branch of the tangent method leaves a stated precipitate entry (empty after the collapsed branch: tangent_collapsed_leaves_empty), every cache is keyed by the phase it belongs to — a query with phase=/precPhase= p changes no entry of another phase (Kept) and its answer and own entries are determined by the entries of p alone, whatever the other phases hold (Agree/Sim, query_ignores_other_phases, diffusivity_unaffected_by_other_phase) — and IF the solver is start-independent (hypothesis) every query result after any history equals the result on a new object and is an explicit function of the arguments. All three models are tied to /repo on every run (exact differential correspondence for (1),(2); trace refinement of instrumented real runs — all cache slots of all phases compared after every query — on the shipped Al-Zr, Ni-Al-Cr, Al-Mg-Si (five precipitate phases, precPhase= varied), Fe-Cr-Ni (FCC_A1 + BCC_A2 with mobilities, phase= varied) and binary Ni-Al (ordered FCC_L12) objects for (3)); driving-force sequences go undersaturated -> supersaturated -> back on one object for all four methods, temperature arrays are all-equal / first=last!=middle / two-equal / free.',
+    'level_note': 'MONITORED ONLY (oracle, no proof): numerical purity of the pycalphad-backed values, i.e. that the real minimiser is start-independent to the solver tolerance — query sequences (orders, repetitions, temperature jumps, removeCache on/off, alone vs in arrays, cleared vs brand-new vs warmed objects) on the shipped Al-Zr, Ni-Al-Cr, Al-Mg-Si and Fe-Cr-Ni objects, with non-default phase=/precPhase= arguments interleaved, compared at rtol 1e-6; the vectorised GE axis of BinaryThermodynamics.getInterfacialComposition (one pycalphad workspace). Not modelled: computeSearchDir=True, local_phase_sampling_conditions (held at None; the sample cache is tagged by T only), impingementFactor, _interfacialCompositionFromCurvature, phase_records.models switching in _setupSubModels. Trusted: Python hash of an int tuple is injective on the keys met (hash(-1)==hash(-2) concerns negative components only); NumPy float->int cast semantics as observed on this platform (out of range -> minimum). Findings kept in the code (known_findings.txt, each emitted under its own key only for its own class, identified from the instrumented trace): curvatureFactor / getGrowthAndInterfacialComposition answer with the previous output when the equilibrium at their arguments yields no two-phase result and a cached equilibrium exists (Lean: curvature_res gives the exact characterisation); the cached list can lose the precipitate in place and then poisons later queries without searchDir; and the cached-start local equilibrium of _getCompositionSetsEq (curvature factors, approximate/curvature driving force) can find other phases than the global equilibrium of a new object near the phase boundary — i.e. the StartIndependent hypothesis of the purity theorem is FALSE for the real pycalphad local solver there; and the default tangent driving force of an ORDERED precipitate restarted from the cached composition set can reach another tangent point than from a fresh sample (binary Ni-Al: -169 instead of +270 J/mol after an undersaturated first query; key tangent-cached-start-other-stationary-point). The diffusivities, the interfacial compositions and the driving forces on stoichiometric precipitates showed no history dependence at rtol 1e-6.',
     'technique': 'Lean 4 proofs by induction over operation/query histories + exact model/implementation correspondence + trace refinement of instrumented real runs + differential oracle (warmed vs fresh objects)',
     'design_ref': 'DESIGN.md section 6, C09',
 }
 LEAN_MODULES = ['KawinV.Props.C09']
 MONITORED = [
-    'numerical purity of pycalphad-backed values (start-point independence of the minimiser) on Al-Zr, Ni-Al-Cr, Al-Mg-Si (5 precipitate phases) and Fe-Cr-Ni (2 phases with mobilities): warmed vs cleared vs new objects, alone vs in arrays, default and non-default phase=/precPhase=, rtol 1e-6',
+    'numerical purity of pycalphad-backed values (start-point independence of the minimiser) on Al-Zr, Ni-Al-Cr, binary Ni-Al (ordered L12), Al-Mg-Si (5 precipitate phases) and Fe-Cr-Ni (2 phases with mobilities): warmed vs cleared vs new objects, alone vs in arrays, default and non-default phase=/precPhase=, rtol 1e-6',
     'BinaryThermodynamics.getInterfacialComposition with one common temperature (vectorised GE axis inside one pycalphad workspace) vs point-by-point evaluation',
 ]
 ASSUMPTIONS = [
